@@ -45,3 +45,18 @@ package keys
 //@   trusted definition of KeyID: FNV-1a hash of the key bytes
 //@   modifies nothing
 //@   ensures[def] ret0 == KeyID(pubBytes)
+
+// Signed: by definition, what ecdsa.Sign produces for the private key and digest.
+//@ ghost func Signed(priv *ecdsa.PrivateKey, digest []byte, r int, s int) bool
+// SignedBy: the signature string encodes a pair produced by signing the digest with priv.
+//@ ghost func SignedBy(priv *ecdsa.PrivateKey, digest []byte, sig string) bool { return SigWellFormed(sig) && Signed(priv, digest, Parse36(SplitBar(sig)[0]), Parse36(SplitBar(sig)[1])) }
+
+//@ func EncodeSignature(r, s *big.Int) string
+//@   trusted definition: base-36 text of r and s joined by "|"; DecodeSignature parses it back
+//@   requires r != nil && s != nil
+//@   modifies nothing
+//@   ensures[def] SigWellFormed(ret0) && Parse36(SplitBar(ret0)[0]) == G_bigval(r) && Parse36(SplitBar(ret0)[1]) == G_bigval(s)
+
+//@ func Sign(priv *ecdsa.PrivateKey, data []byte) (r, s *big.Int, err error)
+//@   modifies nothing
+//@   ensures[def] err == nil ==> r != nil && s != nil && Signed(priv, data, G_bigval(r), G_bigval(s))
